@@ -269,14 +269,14 @@ def _kan_props(modules, rule, oracle_pass=None, oracle_project=None, nontrivial=
     if oracle_project:
         d['oracle_project'] = oracle_project
     d['trusted_base'] = d['trusted_base'] + ['Model/Kanata.lean as a transcription of src/kanata/mod.rs, key_repeat.rs, caps_word.rs, output_logic.rs (checked differentially on OS events with virtual-time stamps, the idle flag and the layout digest)']
-    d['assumptions'] = ['configurations using sequence mode, dynamic macros, zippychord, chords v2, live reload, cmd/clipboard/delay actions are outside the kanata-level model (overrides are inside it since the table is serialised) (answered unsupported, counted in the distribution)',
+    d['assumptions'] = ['configurations using dynamic macros, zippychord, chords v2, live reload, cmd/clipboard/delay actions are outside the kanata-level model (overrides are inside it since the table is serialised; sequence mode is inside it since the defseq table and options are serialised: Model/KanataSeq.lean) (answered unsupported, counted in the distribution)',
                         'mouse-move distances (floating point) are not modelled: move events carry the direction only']
     return d
 
 
 PROPS = {
     'C02': _kan_props(['KVerif.Props.C02', 'KVerif.Props.C02frag', 'KVerif.Props.C02full'],
-        'hand-written capacity-edge shapes (11-14 held layers, 18 stacked one-shot layers, repeat re-entering its container, 11 concurrent tap-holds + queue flood, every valid key code once) plus random whole-grammar configurations (incl. custom actions) driven by histories that are not physically consistent (repeated presses, stray releases, repeat and tap events, unmapped codes, floods of 70-200 events); non-trivial = output changed at least twice; oracle: every configuration the real parser accepts must satisfy CfgWF (evaluated by the driver on the serialised parse result) and must be processed without panic/abort/hang',
+        'hand-written capacity-edge shapes (11-14 held layers, 18 stacked one-shot layers, repeat re-entering its container, 11 concurrent tap-holds + queue flood, every valid key code once, two waiting actions in a row with timeouts 40000/65535 held to and past their deadlines [u16-delay], chords v2 with 15/16/17/20/32 participants pressed one per tick or as a burst [chv2-wide]) plus random whole-grammar configurations (incl. custom actions) driven by histories that are not physically consistent (repeated presses, stray releases, repeat and tap events, unmapped codes, floods of 70-200 events); non-trivial = output changed at least twice; oracle: every configuration the real parser accepts must satisfy CfgWF (evaluated by the driver on the serialised parse result) and must be processed without panic/abort/hang',
         None, _crash_or_ok),
     'C01': _kan_props(['KVerif.Props.C01', 'KVerif.Props.C01q2', 'KVerif.Props.C01union'],
         'non-latching whole-grammar configurations (layers, tap-hold variants, tap-dance, one-shot variants, chords v1, macros, fork/switch, multi, release-key/layer, unmod, mouse wheel/move, virtual keys operated by tap/release only, hold-for-duration, on-idle) and balanced histories - every pressed key is released, incl. bursts of 40-120 events overflowing the 32-slot queue - followed by 3000 quiet ticks; plus 20 keys pressed at once with 12-key multis (> 64 states), tap-holds (> 8), one-shot layers (> 16), macros (> 4) and tap-dances; non-trivial = output changed at least twice; oracle on the real trace: nothing down at the OS at the end, nothing emitted during the last 500 ms, kanata reports idle',
@@ -291,7 +291,7 @@ PROPS = {
         'simple single-layer configurations (plain keys, output chords, multi, use-defsrc, reserved no-op keys; one in four with global overrides, whose table the harness reads from the configuration text) and whole-grammar configurations on 1-4 layers (tap-hold, tap-dance, one-shot, fork, switch, chords v1, unmod/unshift, virtual keys), keys held while OS repeat events are injected after any event; the key-output table recomputed by the model from the serialised actions is compared with the table the real parser built; non-trivial = a repeat event was injected while a key was down and the output changed at least twice; oracle on the implementation trace: at most one event per repeat, only for a key that is down at the OS, and on simple configurations a repeat for the last-listed output that is down',
         'C14o', None, lambda case, impl: ' rp ' in case and impl.count('@') >= 2),
     'C05': _lay_props(['KVerif.Props.C05', 'KVerif.Props.C05multi'],
-        'lone tap-hold key: 7 variants x T in {2,5,200} x concurrent on/off x tap-repress window {0,3} x hold durations {0,1,T-2..T+2}; exhaustive physically consistent schedules (<= N events) over the tap-hold key and two plain keys with gaps {0,1,T-1,T,T+1}; random interleavings of two tap-hold keys with plain keys incl. bursts; non-trivial = output changed at least twice; distinct = distinct case line. Oracle on the implementation trace: exactly one tap/hold/timeout marker effect per press, decision kind and tick for a lone key (closed form), plain keys output in press order',
+        'lone tap-hold key: 7 variants x T in {2,5,200} x concurrent on/off x tap-repress window {0,3} x hold durations {0,1,T-2..T+2}; exhaustive physically consistent schedules (<= N events) over the tap-hold key and two plain keys with gaps {0,1,T-1,T,T+1}; random interleavings of two tap-hold keys with plain keys incl. bursts; non-trivial = output changed at least twice; distinct = distinct case line. Oracle on the implementation trace: exactly one tap/hold/timeout marker effect per press, decision kind and tick for a lone key (closed form), plain keys output in press order; [t8] oracle clause O4 on the implementation trace: a press of a tap-hold key (any variant) that is released at least 2 ticks inside its hold timeout with no key pressed between its press and its release must resolve to the tap action, whatever was pending before it and whatever is queued after its release (the i-th tap/hold/timeout effect of a key is the one of its i-th press)',
         'C05o'),
     'C17': _lay_props(['KVerif.Props.C17'],
         'one tap-dance key (lists of 1-4 marker keys; a layer-while-held at any position; a tap-hold at the last position; the empty list, which the parser must reject), lazy and eager, T in {3,10,200}, rapid-event-delay 0 / 2 / default, and one plain key that has another code on the layer the dance can hold: exhaustive physically consistent schedules (<= N events) over the two keys with gaps {0,1,T-1,T,T+1} (beyond N_full events: gaps {1,T-1,T}), plus random longer schedules incl. bursts > 32 events; non-trivial = output changed at least twice; distinct = distinct case line. Oracle on the implementation trace: a reference machine written from the statement (deadline = T ticks after the last counted tap was seen; ends at the deadline, on another key\'s press, or when the list is exhausted; the N-th action pressed once and held until the release of the last counted tap; uncounted events stay queued in order; eager: each press performs the next action) must reproduce the whole trace (which keys are down after every tick), so: exactly one marker per lazy dance and the right one, one per tap when eager, the interrupting key after the chosen action (on the held layer if the action is a layer)',
@@ -327,12 +327,24 @@ PROPS = {
 # disagreement into a concrete failing input; see check: 'determined')
 def _c04_observable(case, out):
     m = re.search(r' TBL=(\S+)', out)
-    return _lay_keyseq(case, out) + ' table=' + (m.group(1) if m else '-')
+    o = re.search(r' OS=(\S+)', out)   # emission step on the real Kanata (harness/src/c04.rs)
+    return _lay_keyseq(case, out) + ' table=' + (m.group(1) if m else '-') + ' os=' + (o.group(1) if o else '-')
 
 
 PROPS['C04']['determined'] = _c04_observable
-PROPS['C04']['determined_what'] = 'the order in which the key list sent to the OS changes, and whether the layer table the parser built is the one the configuration spells out'
-PROPS['C04']['norm_impl'] = _norm_crash
+PROPS['C04']['determined_what'] = 'the order in which the key list sent to the OS changes, whether the layer table the parser built is the one the configuration spells out, and whether the OS key events of the real Kanata are the de-duplicated diff of consecutive key lists'
+def _c04_project(out):
+    """what the specification's key-list trace is compared with: the key-list changes of the real layout,
+    plus the verdict of the emission step on the real Kanata when it is not `ok` (the statement's OS
+    events are the de-duplicated diff of consecutive key lists, so any other verdict is a failure)"""
+    o = re.search(r' OS=(\S+)', out)
+    keys = _lay_keys_only(out)
+    return keys if (not o or o.group(1) == 'ok') else keys + ' OS=' + o.group(1)
+
+
+PROPS['C04']['oracle_project'] = _c04_project
+# MAXHELD=<n> is a diagnosis of the harness for the known-finding matcher only (check: match_known sees the raw output)
+PROPS['C04']['norm_impl'] = lambda s: re.sub(r' MAXHELD=\d+', '', _norm_crash(s))
 PROPS['C04']['norm_model'] = _norm_crash
 def _cfg_text(case):
     t = case.split(' ', 3)
@@ -396,6 +408,18 @@ def _c14_free_oracle(case, impl):
 
 
 PROPS['C14']['free_oracle'] = _c14_free_oracle
+
+
+def _c14_post_oracle(case, impl, spec):
+    """configurations INSIDE the kanata-level model whose text carries `;; repeat-expect` lines (the
+    many-held-layers family): the completeness clause of the model-free oracle on the main trace"""
+    if spec != 'ok' or ';; repeat-expect' not in _cfg_text(case) or impl.startswith(('rej', 'crash', 'unsupported')):
+        return spec
+    v = _c14_free_oracle(case, 'x :: TRACE ' + impl.split(' || ')[0])
+    return v if v and v.startswith('fail') else spec
+
+
+PROPS['C14']['post_oracle'] = _c14_post_oracle
 # C02 outside the model: the history must simply be processed (a panic is caught by the harness and
 # shows as `crash ...`, which the projection turns into a failure)
 PROPS['C02']['free_oracle'] = lambda case, impl: 'ok' if (' :: TRACE ' in impl or impl.startswith('crash')) else None
@@ -821,10 +845,15 @@ def _c12_project(out):
 
 
 def _c12_nontrivial(case, impl):
+    if case.startswith('KAN '):
+        # kanata-level case (composed model): the run sent something to the OS
+        return not impl.startswith(('rej', 'unsupported', 'crash')) and '@' in impl
     if case.startswith('C12 Q'):
         return 'V' in impl or 'I' in impl
     if case.startswith('C12 T'):
         return True
+    if case.startswith('C12 P'):
+        return ' V' in impl
     # an R case counts when sequence mode did something observable: a virtual key fired, or the
     # history ran into a failure/timeout while a table was loaded
     return impl.startswith('ok ') and (' V' in impl or ' d' in impl or ' u' in impl)
@@ -834,6 +863,15 @@ def _c12_stats(cases, impl):
     import collections
     d = collections.Counter()
     for c, i in zip(cases, impl):
+        if c.startswith('KAN '):
+            d['kind_KAN'] += 1
+            d['kan_' + ('rejected_by_parser' if i.startswith('rej') else 'crash' if i.startswith('crash') else
+                        'unsupported' if i.startswith('unsupported') else 'ran')] += 1
+            if ' d14 u14' in i:
+                d['kan_backspaced'] += 1
+            if ' || STEP ' in i:
+                d['kan_loop_mode'] += 1
+            continue
         kind = c.split()[1]
         d['kind_' + kind] += 1
         if i.startswith('rej'):
@@ -866,7 +904,10 @@ def _c12_stats(cases, impl):
 def _c12_shrink(case):
     """drop one history event / one table entry at a time (R cases), keeping the counts consistent"""
     f = case.split()
-    if len(f) < 3 or f[1] != 'R' or 'H' not in f:
+    if case.startswith('KAN '):
+        yield from _lay_shrink(case)
+        return
+    if len(f) < 3 or f[1] not in ('R', 'P') or 'H' not in f:
         return
     h = f.index('H')
     n = int(f[h + 1])
@@ -882,6 +923,8 @@ def _c12_shrink(case):
 
 def _c12_describe(case):
     f = case.split()
+    if f[0] == 'KAN':
+        return _lay_describe(case)
     if f[1] == 'R':
         return ('R case: mode %s timeout %s always-on %s modcancel %s; table and history in the token form of '
                 'lean/KVerif/Drv/C12.lean (kvharness eval C12 renders the kanata configuration)' % (f[2], f[3], f[4], f[5]))
@@ -889,14 +932,24 @@ def _c12_describe(case):
 
 
 PROPS['C12'] = {
-    'lean_modules': ['KVerif.Props.C12', 'KVerif.Props.C12mod'],
+    'lean_modules': ['KVerif.Props.C12', 'KVerif.Props.C12mod', 'KVerif.Props.C12kan'],
+    'expand': True,   # KAN lines are expanded by the harness (kan::expand); the C12 lines pass through unchanged
     'oracle_project': _c12_project,
+    # KAN lines: the harness prints the panic text, the composed model names the crash site
+    'norm_impl': lambda o: 'crash panic' if o.startswith('crash panic') else o,
+    'norm_model': lambda o: 'crash panic' if o.startswith(('crash seq:', 'crash layout:', 'crash override', 'crash underflow', 'crash customId')) else o,
     'nontrivial': _c12_nontrivial,
     'rule': 'Q: random key sets over a 5-symbol alphabet (incl. the overlap marker and the empty key) vs the real Trie; '
             'T: all ordered pairs of plain sequences of length 1-3 over two keys, O- groups of every size 0-7, fixed edge cases, '
             'random tables (plain / chords / O- groups / malformed); R: for generated accepted tables x 3 input modes x {leader, always-on}: '
             'every sequence in every permitted order (sampled above 6 orders), every proper prefix + a non-matching key, a gap of T-1/T/T+1 at every position, '
             'a pending prefix idling T-1/T/T+1, cut chorded/overlap plans, plus random undisciplined histories (leader re-trigger, cancel, noerase, modifiers); '
+            'KAN: whole-Kanata cases for the composed model (Model/Kanata.lean + Model/KanataSeq.lean): 8 tables (plain, chorded, O- groups, modifiers typed as keys) x '
+            'all three modes x leader/always-on x modcancel, timeouts 1..1000; simple configurations with leader, cancel, noerase, a second leader, rpt typed with gaps T-2/T-1/T around the timeout, '
+            'and rich configurations whose special keys are drawn from 36 actions (leaders inside multi/tap-hold/tap-dance/fork/switch/macro, caps-word, unmod/unshift, one-shot, layers, '
+            'virtual-key press/release/tap/toggle, hold-for-duration, on-idle) and whose virtual keys are drawn from 18 actions (keys of the table, a leader, macros, tap-hold, mouse button, unicode), '
+            'with and without overrides; random histories with repeats, taps, direct virtual-key events and, for a third, the processing loop with blocking (gap); '
+            'compared per tick: OS events, idle flag, blocking decisions, layout digest; '
             'non-trivial = the trie answered / a table was parsed / the run produced OS output or a virtual-key tap; distinct = distinct case line',
     'stats': _c12_stats,
     'shrink_candidates': _c12_shrink,
@@ -905,7 +958,8 @@ PROPS['C12'] = {
     'trusted_base': ['patricia_tree (byte trie) implements the three prefix queries as specified on lists in Model/SeqTrie.lean (cross-checked on random key sets, not proved)',
                      'Model/SeqTrie.lean and Model/Sequences.lean as transcriptions of parse_sequences/parse_sequence_keys/gen_permutations and of do_sequence_press_logic + hooks (checked differentially)',
                      'parse_macro_item_impl beyond the press/release expansion of key-list items; str_to_oscode; the rest of the config parser (exercised, not modelled)',
-                     'gen/g_seq.py (constants and match arms of the sequence code)'],
+                     'gen/g_seq.py (constants and match arms of the sequence code)',
+                     'Model/KanataSeq.lean + the [seq] hooks of Model/Kanata.lean as a transcription of the sequence hooks of handle_keystate_changes / tick_states / handle_repeat / is_idle (checked differentially on whole-Kanata cases)'],
     'assumptions': ['runtime theorems are about the sequence functions fed with the key presses the key-state diff produces; the layout slice (queue, one event per tick, NormalKey/Custom states) is modelled and compared per tick, not proved about',
                     'fewer than 32 queued events and 64 key states; key codes are keyboard keys (no mouse buttons/wheel)'],
 }
@@ -1073,7 +1127,7 @@ _C20_OTHER_MODS = {29, 97, 56, 125, 126}
 
 def _c20_project(out):
     """OS trace `t5 d30 u30 ...` -> `text <chars> mods <codes>` (what the application shows)."""
-    if out.startswith(('rej', 'crash', 'harness-error', 'bad-')) or re.match(r'^(v\d+|sub|no|e[01])( |$)', out):
+    if out.startswith(('rej', 'crash', 'harness-error', 'bad-', 'unsupported')) or re.match(r'^(v\d+|sub|no|e[01])( |$)', out):
         return out           # rejected dictionary / SubsetMap family: compared as they are
     text, lsft, rsft, ralt = [], False, False, False
     for tok in ([] if out == '-' else out.split(' ')):
@@ -1198,24 +1252,248 @@ def _c20_describe(case):
 
 def _c20_norm(out):
     # the harness appends input-shape fingerprints after ' #' (matched by KNOWN_FINDINGS records only)
-    return out.split(' #', 1)[0]
+    # (zcw family: the model answers `unsupported`, the trace after ' :: TRACE ' is for the free oracle)
+    return out.split(' #', 1)[0].split(' :: TRACE ', 1)[0]
+
+
+# ---- C20 model-free oracle (remarks R1/R2): two slices the Lean specification is silent about
+def _c20_parse(case):
+    t = case.split()
+    i = t.index('D')
+    cfg = {'we': int(t[3]), 'dl': int(t[5]), 'ss': int(t[7])}
+    nl = int(t[i + 1]); i += 2
+    lines = []
+    for _ in range(nl):
+        nc = int(t[i + 1]); i += 2
+        chords = []
+        for _ in range(nc):
+            nk = int(t[i]); chords.append(sorted(set(int(x) for x in t[i + 1:i + 1 + nk]))); i += 1 + nk
+        no = int(t[i + 1]); i += 2
+        outs = [(int(t[i + 2 * j]), int(t[i + 2 * j + 1])) for j in range(no)]
+        i += 2 * no
+        lines.append((chords, outs))
+    nh = int(t[i + 1]); i += 2
+    hist = [(t[i + 2 * j], int(t[i + 2 * j + 1])) for j in range(nh)]
+    return cfg, lines, hist
+
+
+def _c20_cells(trace, dead):
+    """OS trace -> (cells, mods) under the dead-key reading: a key-down that is one of the
+    dictionary's no-erase outputs (same key, same shift/AltGr state) shows nothing by itself and
+    joins the next character's cell; Backspace deletes one cell.  None = not interpretable
+    (a Backspace or the end of the trace while a dead key is pending)."""
+    cells, pend, lsft, rsft, ralt = [], [], False, False, False
+    for tok in ([] if trace == '-' else trace.split(' ')):
+        kind, val = tok[0], tok[1:]
+        if kind == 't':
+            continue
+        if not val.isdigit():
+            return None
+        k, down = int(val), kind == 'd'
+        if k == _C20_LSFT:
+            lsft = down
+        elif k == _C20_RSFT:
+            rsft = down
+        elif k == _C20_RALT:
+            ralt = down
+        elif not down or k in _C20_OTHER_MODS:
+            continue
+        elif k == _C20_BSPC:
+            if pend:
+                return None
+            if cells:
+                cells.pop()
+        else:
+            ch = ('S' if (lsft or rsft) else '') + ('G' if ralt else '') + str(k)
+            if k != _C20_SPC and ch in dead:
+                pend.append(ch)
+            else:
+                cells.append('+'.join(pend + [str(k) if k == _C20_SPC else ch]))
+                pend = []
+    if pend:
+        return None
+    return cells, [c for c, on in ((_C20_LSFT, lsft), (_C20_RSFT, rsft), (_C20_RALT, ralt)) if on]
+
+
+def _c20_out_ch(o):
+    kind, code = o
+    return ('S' if kind & 1 else '') + ('G' if kind & 2 else '') + str(code)
+
+
+def _c20_partial_release_oracle(cfg, lines, hist, impl):
+    """(3) partial release, then extend (seeded change C20g): ONE hold from a fresh state, no
+    modifiers, top-level entries only.  Every press leaves the held keys inside some entry; a press
+    that completes an entry replaces what the hold has put on screen by that entry's expansion -
+    "any shorter expansion it supersedes is erased" - where the superseded entry's keys are a subset
+    of the new entry's keys; keys are released only right after such a completing press (a release
+    after a non-completing press disables zippychord by design) and never all of them before the
+    end.  Speaks only if some key was released before a later entry completed."""
+    if any(len(ch) != 1 for ch, _ in lines) or cfg['ss'] != 0:
+        return None
+    table = {}
+    for ch, outs in lines:
+        table[tuple(ch[0])] = outs            # a later line with the same chord is rejected (rej dup)
+    if hist[-1][0] != 't' or hist[-1][1] < 20 or sum(1 for k, _ in hist if k != 't') > 16:
+        return None
+    held, contrib, last_act, last_chord = [], [], None, False
+    released_any, extended_after_release, ended = False, False, False
+    ticks, first_at, last_press_at, nev = 0, None, 0, 0
+    for k, v in hist:
+        if k == 't':
+            ticks += v
+            continue
+        nev += 1
+        if ended or v in (_C20_LSFT, _C20_RSFT, _C20_RALT, _C20_BSPC) or v in _C20_OTHER_MODS:
+            return None
+        if k == 'p':
+            if v in held:
+                return None
+            held.append(v)
+            first_at = ticks if first_at is None else first_at
+            last_press_at = ticks + nev
+            key = tuple(sorted(held))
+            if key in table:
+                if not table[key] or (last_act is not None and not set(last_act) <= set(key)):
+                    return None
+                contrib = [str(o[1]) if o[1] == _C20_SPC else _c20_out_ch(o) for o in table[key]]
+                extended_after_release = extended_after_release or (released_any and last_act != key)
+                last_act, last_chord = key, True
+            elif any(set(key) <= set(c) for c in table):
+                contrib.append(str(v))
+                last_chord = False
+            else:
+                return None
+        else:
+            if v not in held or not last_chord:
+                return None
+            held.remove(v)
+            released_any = True
+            if not held:
+                ended = True
+    if first_at is None or not extended_after_release:
+        return None
+    if cfg['dl'] != 0 and last_press_at - first_at + 2 >= cfg['dl']:
+        return None
+    return 'text ' + (','.join(contrib) or '-') + ' mods -'
+
+
+def _c20_free_oracle(case, impl):
+    """(1) `zch` cases whose dictionary has no-erase outputs (the Lean specification does not
+    interpret dead keys): ONE hold that presses exactly the keys of a top-level entry, nothing
+    released before the end, gaps inside the deadline, no modifiers, no follow-ups, no Backspace
+    outputs, smart space off -> the text must be exactly that entry's expansion, read with dead keys
+    (a no-erase output joins the character after it; a Backspace erases the joined character).
+    (2) `zcw` cases (caps-word on, outside the model): lalt tap, then the chords of ONE dictionary
+    line, each hold released before the next -> the keys of the text are the expansion's keys, and
+    every character the expansion spells in upper case is written under shift ("Monday" or "MONDAY",
+    never "monday"); no shift is left down once every key is released."""
+    if ' ssm ' in case or impl.startswith(('rej', 'crash', 'harness-error')):
+        return None
+    fam = case.split()[1]
+    try:
+        cfg, lines, hist = _c20_parse(case)
+    except Exception:
+        return None
+    if cfg['ss'] != 0 or any(o[1] == _C20_BSPC for _, outs in lines for o in outs):
+        return None
+    if fam == 'zch' and not any(o[0] >= 4 for _, outs in lines for o in outs):
+        return _c20_partial_release_oracle(cfg, lines, hist, impl)
+    if fam == 'zch':
+        if any(len(ch) != 1 for ch, _ in lines):
+            return None
+        presses, ticks = [], 0
+        for k, v in hist:
+            if k == 'r':
+                return None
+            if k == 'p':
+                if v in (_C20_LSFT, _C20_RSFT, _C20_RALT) or v in presses:
+                    return None
+                presses.append(v)
+                last_at = ticks
+            else:
+                ticks += v
+        if not presses or (cfg['dl'] != 0 and last_at + len(presses) >= cfg['dl']) or ticks - last_at < len(presses) + 2:
+            return None
+        want = [outs for ch, outs in lines if ch[0] == sorted(presses)]
+        if len(want) != 1 or not want[0] or want[0][-1][0] >= 4:
+            return None
+        if any(o[0] >= 4 and o[1] == _C20_SPC for _, outs in lines for o in outs):
+            return None
+        dead = {_c20_out_ch(o) for _, outs in lines for o in outs if o[0] >= 4}
+        req, pend = [], []
+        for o in want[0]:
+            if o[0] >= 4:
+                pend.append(_c20_out_ch(o))
+            else:
+                req.append('+'.join(pend + [str(o[1]) if o[1] == _C20_SPC else _c20_out_ch(o)]))
+                pend = []
+        got = _c20_cells(_c20_norm(impl), dead)
+        if got is None:
+            return None
+        if got == (req, []):
+            return _c20_project(_c20_norm(impl))
+        return 'text ' + ','.join(req) + ' mods - (dead-key reading; the implementation shows ' + (','.join(got[0]) or '-') + ')'
+    if fam == 'zcw':
+        if ' :: TRACE ' not in impl or cfg['dl'] < 200:
+            return None
+        trace = impl.split(' #', 1)[0].split(' :: TRACE ', 1)[1]
+        if hist[:4] != [('p', 56), ('t', 3), ('r', 56), ('t', 5)]:
+            return None
+        # a quiet tail long enough for every queued event (one per tick) - the shrinker must not turn
+        # 'not processed yet' into a failure
+        if hist[-1][0] != 't' or hist[-1][1] < 20 or sum(1 for k, _ in hist if k != 't') > 16:
+            return None
+        holds, cur, down = [], [], set()
+        for k, v in hist[4:]:
+            if k == 'p':
+                if (cur and not down) or v in down or v == 56:
+                    holds.append(sorted(cur)); cur = []
+                    if v in down or v == 56:
+                        return None
+                cur.append(v); down.add(v)
+            elif k == 'r':
+                if v not in down:
+                    return None
+                down.discard(v)
+            elif v > 60:
+                return None
+        if cur:
+            holds.append(sorted(cur))
+        want = [outs for ch, outs in lines if ch == holds]
+        if len(want) != 1 or not want[0] or any(o[0] >= 2 for o in want[0]):
+            return None
+        got = _c20_cells(trace, set())
+        if got is None:
+            return None
+        cells, mods = got
+        # (while a letter is still held, caps-word itself keeps LShift down)
+        ok = ((not mods or (down and mods == [_C20_LSFT])) and len(cells) == len(want[0]) and
+              all(c.lstrip('S') == str(o[1]) and (c.startswith('S') or not (o[0] & 1) or o[1] == _C20_SPC)
+                  for c, o in zip(cells, want[0])))
+        if ok:
+            return 'unsupported'
+        return ('text ' + ','.join(_c20_out_ch(o) for o in want[0]) +
+                ' mods - (capitals as spelled, other letters in either case; the implementation shows ' +
+                (','.join(cells) or '-') + ' mods ' + (','.join(map(str, mods)) or '-') + ')')
+    return None
 
 
 PROPS['C20'] = {
     'lean_modules': ['KVerif.Props.C20'],
     'norm_impl': _c20_norm,
+    'free_oracle': _c20_free_oracle,
     'oracle_project': _c20_project,
     'nontrivial': _c20_nontrivial,
     'shrink_candidates': _c20_shrink,
     'describe': _c20_describe,
-    'rule': 'generated dictionaries (disjoint / overlapping-extending / follow-up / mixed; lower, upper, AltGr, Shift+AltGr, no-erase and backspace outputs; expansions sharing prefixes) x every line x every permutation of its last chord (quick: 6 of the 24 orders of 4-key chords, thorough: all) x modifiers held (none, lsft, rsft, ralt, lsft+ralt, both shifts) x press gaps incl. the boundary values deadline-1 / deadline / deadline+1 x optional plain typing before (idle time at / below / above idle-reactivate-time) and after (incl. punctuation); two lines one after the other; random press/release/tick histories over the dictionary keys plus modifiers and ignored keys; plain typing of keys in no chord; the forced-reset boundary (9990..10010 idle ticks); a corpus with one witness per recorded finding; SubsetMap insert/lookup sequences (exhaustive up to 2 insertions — thorough: 3 — of subsets of a 4-key universe with all 16 lookups, plus random sequences of up to 6). non-trivial = a chord fired (the OS trace has a backspace the user did not type, or more key-downs than presses) / a SubsetMap case with at least one insertion; distinct = distinct case line',
+    'rule': 'generated dictionaries (disjoint / overlapping-extending / follow-up / mixed; lower, upper, AltGr, Shift+AltGr, no-erase and backspace outputs; expansions sharing prefixes) x every line x every permutation of its last chord (quick: 6 of the 24 orders of 4-key chords, thorough: all) x modifiers held (none, lsft, rsft, ralt, lsft+ralt, both shifts) x press gaps incl. the boundary values deadline-1 / deadline / deadline+1 x optional plain typing before (idle time at / below / above idle-reactivate-time) and after (incl. punctuation); two lines one after the other; random press/release/tick histories over the dictionary keys plus modifiers and ignored keys; plain typing of keys in no chord; the forced-reset boundary (9990..10010 idle ticks); a corpus with one witness per recorded finding; H: a chord superseded in the same hold by a longer one whose expansion shares a prefix containing a no-erase output (every press order); I (zcw): caps-word switched on, then one dictionary line with capitals, chords of letters and of digits; J: towers K1<K2(<K3) with some-but-not-all keys released between the levels; SubsetMap insert/lookup sequences (exhaustive up to 2 insertions — thorough: 3 — of subsets of a 4-key universe with all 16 lookups, plus random sequences of up to 6). non-trivial = a chord fired (the OS trace has a backspace the user did not type, or more key-downs than presses) / a SubsetMap case with at least one insertion; distinct = distinct case line',
     'stats': _c20_stats,
     'trusted_base': ['Model/Zippy.lean as a transcription of zippychord.rs, subset.rs, the dictionary loop of cfg/zippychord.rs and the press/release path of a pass-through layout (checked differentially, not proved)',
                      'Model/TextBuf.lean + Model/ZippySpec.lean: the reading of "text visible in the receiving application" and of the property statement',
                      'runner/props.py _c20_project: the same text-buffer semantics applied to the implementation trace',
                      'harness rendering of a structured dictionary to the zippy file text and output-character-mappings (str_to_oscode cross-checked per character)'],
     'assumptions': ['i16 counters are unbounded integers in the model (overflow needs a >32767-character expansion)',
-                    'dead keys are not interpreted: no-erase outputs are compared at trace level only (the specification is silent on dictionaries containing them)',
+                    'dead keys: the Lean specification is silent on dictionaries with no-erase outputs (compared at trace level); the model-free oracle _c20_free_oracle reads them for single-hold histories only (a no-erase output joins the character after it into one screen cell); caps-word (family zcw) and partial-release-then-extend histories are likewise judged by that oracle on the real trace, not by the Lean specification',
                     'caps-word: the flag is an input of the model tick and is false in every generated history; zippy_shift_restored covers caps-word states, the text theorems assume it off',
                     'the path from Kanata to zippychord is modelled for a pass-through layout only ((defsrc)(deflayer base)): one queued event per tick, keys pressed/released in order',
                     'specification domain: see the header of lean/KVerif/Model/ZippySpec.lean (silent on ignored keys, no-erase outputs, expansions deleting text they did not type, empty expansions)',
@@ -1413,11 +1691,55 @@ def _c11_cps(tok):
 
 
 def _c11_norm(out):
+    if out.startswith('pipe'):   # [t8:pipe] judged by _c11_free_oracle on the raw trace
+        return 'pipe'
     m = re.match(r'crash panic index out of bounds: the len is \d+ but the index is (\d+)', out)
     return 'crash indexOOB ' + m.group(1) if m else out
 
 
+# [t8:pipe] begin
+def _c11_free_oracle(case, impl):
+    """`C11 pipe <expect> KAN 0 <hex cfg> HIST ...`: whole configurations on the real pipeline.
+    same:<code>  - the key under test is mapped to itself (use-defsrc): every key event sent to the OS
+                   carries its code, nothing goes out on the mouse channel, and it is sent
+    noignored    - no code of the reserved range 676..=685 (nop0..nop9) is sent to the OS
+    accepted:<context>:<name> - a key name that is accepted as a plain action is accepted in that
+                   position too (output chord key, macro item, defseq key list)"""
+    t = case.split()
+    if len(t) < 3 or t[1] != 'pipe':
+        return None
+    if t[2].startswith('accepted:') and impl.startswith('pipe'):
+        _, ctx, cps = t[2].split(':', 2)
+        name = _c11_cps(cps)
+        if impl.startswith('pipe rej'):
+            m = re.search(r'help: (.*?)(?: For more info|$)', impl)
+            return f'fail key name {name} is accepted as an action but refused as {ctx} item: {m.group(1) if m else impl[9:120]}'
+        return 'ok'
+    if not impl.startswith('pipe') or impl.startswith('pipe rej'):
+        return None
+    keys = re.findall(r'(?<![a-z])[du](\d+)\b', impl)
+    if t[2].startswith('same:'):
+        k = t[2][5:]
+        other = sorted(set(x for x in keys if x != k), key=int)
+        if other:
+            return f'fail key {k} is mapped to itself (use-defsrc) but code(s) {",".join(other)} were sent to the OS'
+        if re.search(r'\bb[du]\d+|\bwh\d+', impl):
+            return f'fail key {k} is mapped to itself (use-defsrc) but a mouse event was sent'
+        if k not in keys:
+            return f'fail key {k} is mapped to itself (use-defsrc) but was not sent to the OS'
+        return 'ok'
+    if t[2] == 'noignored':
+        bad = sorted(set(x for x in keys if 676 <= int(x) <= 685), key=int)
+        if bad:
+            return f'fail reserved no-op code(s) {",".join(bad)} sent to the OS'
+        return 'ok'
+    return None
+# [t8:pipe] end
+
+
 def _c11_project(out):
+    if out == 'pipe':   # [t8:pipe]
+        return 'ok'
     m = re.match(r'name (\S+) act (?:key|btn|wheel) (\d+)$', out)
     if m:
         return f'name {m.group(1)} denotes {m.group(2)}'
@@ -1490,6 +1812,11 @@ def _c11_describe(case):
         return 'Cfg.mapped_keys of: ' + _c11_cfg_text(t[2:])
     if t[1] == 'tap':
         return f'press and release input code {t[2]} on: ' + _c11_cfg_text(t[3:])
+    if t[1] == 'pipe' and len(t) > 6:   # [t8:pipe]
+        try:
+            return {'expect': t[2], 'config': bytes.fromhex(t[5]).decode(), 'history': ' '.join(t[6:])}
+        except Exception:
+            return case
     return case
 
 
@@ -1499,6 +1826,8 @@ def _c11_stats(cases, impl):
     for c, i in zip(cases, impl):
         k = c.split()[1]
         d['kind_' + k] += 1
+        if k == 'pipe':   # [t8:pipe]
+            d['pipe_' + c.split()[2].split(':')[0] + ('_rejected' if i.startswith('pipe rej') else '')] += 1
         if k == 'tap':
             if i.startswith('m 0'):
                 d['tap_not_intercepted'] += 1
@@ -1598,7 +1927,8 @@ PROPS['C11'] = {
     'shrink_candidates': _c11_shrink,
     'stats': _c11_stats,
     'per_case_timeout': 0.5,
-    'rule': 'exhaustive: every u16 value 0..=1023 through from_u16/as_u16/KeyCode::from/OsCode::from; every key name of the generated name universe (all str_to_oscode arms incl. aliases, DEFAULT_MAPPINGS, evdev identifiers, keyberon Display strings, special action atoms) plus mutated junk names, looked up and written as an action; every writable key name tapped on a self-mapped, a transparent and a deflayermap configuration; every accepted code tapped on a self-mapped and a transparent configuration (via deflocalkeys-linux), with process-unmapped-keys yes, excepted, and not intercepted; random configurations (deflocalkeys incl. shadowing and invalid numbers, defsrc subsets, deflayermap inputs incl. wildcards, exception lists, 1-3 layers) for Cfg.mapped_keys; non-trivial = code accepted / name known / configuration accepted / any tap; distinct = distinct case line',
+    'free_oracle': _c11_free_oracle,   # [t8:pipe]
+    'rule': 'exhaustive: every u16 value 0..=1023 through from_u16/as_u16/KeyCode::from/OsCode::from; every key name of the generated name universe (all str_to_oscode arms incl. aliases, DEFAULT_MAPPINGS, evdev identifiers, keyberon Display strings, special action atoms) plus mutated junk names, looked up and written as an action; every writable key name tapped on a self-mapped, a transparent and a deflayermap configuration; every accepted code tapped on a self-mapped and a transparent configuration (via deflocalkeys-linux), with process-unmapped-keys yes, excepted, and not intercepted; random configurations (deflocalkeys incl. shadowing and invalid numbers, defsrc subsets, deflayermap inputs incl. wildcards, exception lists, 1-3 layers) for Cfg.mapped_keys; [t8] whole configurations on the real pipeline, judged on the OS events alone (pipe-identity: delegate-to-first-layer yes|no x first layer as deflayer|deflayermap remapping the key under test x use-defsrc bare / in multi / switch / tap-hold / fork on a held upper layer x 24 sampled keys (thorough: all) - the key must come out as its own code; pipe-noignored: nop0..nop9 named as output through every route (plain, multi, macro, output chord, tap-hold, one-shot, fork, tap-dance, unmod, overrides, chords v1/v2, zippychord output-character-mappings) - no code 676..685 may be sent; pipe-contexts: a key name accepted as an action must be accepted as output-chord key, macro item and defseq item, dnd always included); non-trivial = code accepted / name known / configuration accepted / any tap; distinct = distinct case line',
     'trusted_base': ['translator gen/g_keytables.py (regex extraction of both enums, from_u16_linux, str_to_oscode, DEFAULT_MAPPINGS, the output filters and the textual checks of the transcribed parser pieces); every extracted table entry is also compared with the compiled code',
                      'Model/KeyId.lean as a transcription of parse_defsrc / parse_layers / create_defsrc_layer / resolve_coord / press_key / release_key (checked differentially, not proved)',
                      'the simulated output sink and the harness reading of its event strings'],
@@ -1614,6 +1944,9 @@ PROPS['C06'] = _lay_props(['KVerif.Props.C06', 'KVerif.Props.C06mix'],
     'C06o',
     assumptions=['OS output is taken as the key-code list of the layout per tick (the kanata diffing layer is modelled separately)',
                  'ticks are delivered every millisecond: the idle-blocking of the kanata event loop (on the pinned commit is_idle treated oneshot.timeout == 0 as idle, which with rapid-event-delay 0 postponed the release of the one-shot key to the next input) is the subject of C07, not of this layout-level check'])
+
+# t5: families (7)-(9) of harness/src/c06.rs and the per-one-shot-key oracle clause
+PROPS['C06']['rule'] += ('. Added after the remarks of round t5: one-shot-pause-processing keys inside the oracle fragment (pressed long before, shortly before and during an activation, at every offset around the pause; a press inside the pause window (+ queue latency bound) is not counted as a following key, one after it is); a one-shot activated by a chords v2 chord at every offset 0-40 ms after the first following key of an earlier one-shot (participants are neither plain nor one-shot keys for the oracle, the chord\'s markers are never forbidden); an XX key / an unmapped position (block-unmapped-keys) as a following key, crafted and exhaustive (no output of its own, but it is the first following non-one-shot key). Oracle clause O2 now speaks per one-shot key: a plain press must not carry the markers of a one-shot key whose first following key (press variants) / first following press-and-release (release variants) lies between that key\'s last press and this press, whatever other one-shot was activated in between')
 
 # ----------------------------------------------------------------------------- C08 (macros)
 def _c08_split(case):
@@ -1724,7 +2057,7 @@ def _c09_stats(cases, impl):
 
 
 PROPS['C09'] = _lay_props(['KVerif.Props.C09', 'KVerif.Props.C09V2', 'KVerif.Props.C09V2cap', 'KVerif.Props.C09kan', 'KVerif.Props.C09V2full'],
-    'chords v1 (defchords) and v2 (defchordsv2) tables over 2-5 participating keys whose actions are marker keys (11 fixed tables: single chord, with singletons, overlapping, sub-chords, undefined supersets; plus random tables; v2: both release behaviours, entries disabled on the second layer, chords-v2-min-idle variants); for every target set S (|S| >= 2, defined or not): every permutation of the press order x every release order x timing variants (span first-to-last press 0, 1, T-2, T-1, T, T+1, 2T+3 placed before the last press / after the first press / spread; release immediately or after the timeout), exhaustive for |S| <= 4 (v2 families sampled in the quick tier) and sampled for |S| = 5; the same sets typed on the layer where the keys are plain / the chord is disabled; a non-chord key inside the window; the capacity scenario (one chord pressed 9-12 times without release); random physically consistent histories over chord keys, plain keys and the layer key incl. bursts > 32 events; non-trivial = output changed at least twice; distinct = distinct case line. Oracle on the implementation trace. v1: for clean histories the sequence of marker down-transitions equals the greedy decomposition of the press order computed from the table alone (whole set fires once, no participant singleton, two bursts a timeout apart fire separately, a non-chord key inside the window splits it and is delivered in between); no marker on the plain layer. v2: a defined set completed within its timeout fires its marker exactly once (never two copies), no participant key is output, the marker goes up after the first / last participant release per the release rule and not before; completed later than the timeout it does not fire. Both: everything up at the end and within a bound after the last release; keys outside the chords in press order',
+    'chords v1 (defchords) and v2 (defchordsv2) tables over 2-5 participating keys whose actions are marker keys (11 fixed tables: single chord, with singletons, overlapping, sub-chords, undefined supersets; plus random tables; v2: both release behaviours, entries disabled on the second layer, chords-v2-min-idle variants); for every target set S (|S| >= 2, defined or not): every permutation of the press order x every release order x timing variants (span first-to-last press 0, 1, T-2, T-1, T, T+1, 2T+3 placed before the last press / after the first press / spread; release immediately or after the timeout), exhaustive for |S| <= 4 (v2 families sampled in the quick tier) and sampled for |S| = 5; the same sets typed on the layer where the keys are plain / the chord is disabled; a non-chord key inside the window; the capacity scenario (one chord pressed 9-12 times without release); v2 chords with 15/16/17/20 participants (whatever the parser accepts has to fire); random physically consistent histories over chord keys, plain keys and the layer key incl. bursts > 32 events; non-trivial = output changed at least twice; distinct = distinct case line. Oracle on the implementation trace. v1: for clean histories the sequence of marker down-transitions equals the greedy decomposition of the press order computed from the table alone (whole set fires once, no participant singleton, two bursts a timeout apart fire separately, a non-chord key inside the window splits it and is delivered in between); no marker on the plain layer. v2: a defined set completed within its timeout fires its marker exactly once (never two copies), no participant key is output, the marker goes up after the first / last participant release per the release rule and not before; completed later than the timeout it does not fire. Both: everything up at the end and within a bound after the last release; keys outside the chords in press order',
     'C09o',
     extra_trusted=['Model/ChordsV2.lean as a transcription of keyberon/src/chord.rs (after the fixes <fix-capacity>, <fix-cooldown>, <fix-double>; the behaviour before them is kept in Model/ChordsV2Pinned.lean for the counterexample theorems only) and of the chords-v2 hooks of Layout::event / Layout::tick (checked differentially per run incl. a digest of the private ChordsV2 state through hook verif_digest_chv2)'],
     assumptions=['OS output is taken as the key-code list of the layout per tick (the kanata diffing layer is modelled separately)',
@@ -2225,7 +2558,18 @@ def _c08_os_oracle(case, impl):
     # (3) cancel-on-press forms (family os-cancel-press, non-repeating: the macro key is tapped, then
     #     the plain key is pressed): once the plain key's press has reached the OS the macro is
     #     cancelled - it may release what it holds but must not press, click or type anything further
-    if _c08_os_family(case) == 'os-cancel-press' and len(inputs) == 4 and inputs[2][0] == 'p':
+    # (t5) only a key pressed at least one tick after the macro key: the trigger "is enabled while the
+    # macro is in progress", and a press that arrives in the very millisecond of the macro key's press
+    # is handled before the macro has started (a shrunk history reached that corner: false alarm)
+    t_acc, n_in, gap_ok = 0, 0, False
+    for k, v in hist:
+        if k == 't':
+            t_acc += v
+        else:
+            n_in += 1
+            if n_in == 3:
+                gap_ok = t_acc >= 1
+    if _c08_os_family(case) == 'os-cancel-press' and len(inputs) == 4 and inputs[2][0] == 'p' and gap_ok:
         other = str(inputs[2][1])
         tr = impl.split(' :: TRACE ')[1] if ' :: TRACE ' in impl else impl
         t_now, t_other = 0, None
@@ -2242,6 +2586,17 @@ def _c08_os_oracle(case, impl):
             if t_other is not None and t_now > t_other + 2 and re.match(r'(d\d|bd\d|U\+|uc|w[udlr])', tok) and tok != 'd' + other:
                 return ('fail macro not cancelled: the cancelling key reached the OS at %d, the macro still sent %s at %d'
                         % (t_other, tok, t_now))
+    # (4) (t5) `;; expect-os-proj <macro key> <k,k,..> <events>`: other keys are typed meanwhile (family
+    #     os-seq-macro: a defseq sequence typed or completed while the macro holds a modifier group);
+    #     the OS events of the macro's own keys must be the spelled list, whatever else is sent
+    for mp in re.finditer(r';; expect-os-proj (\d+) ([\d,]+) ([^\n]*)', cfg):
+        y, keys, want = int(mp.group(1)), set(mp.group(2).split(',')), mp.group(3).split()
+        if sum(1 for k, v in inputs if k == 'p' and v == y) != 1:
+            continue
+        got = [e for e in evs if re.fullmatch(r'[du](\d+)', e) and e[1:] in keys]
+        if got != want:
+            return ('fail macro projection: other keys were typed while the macro played; projected onto the macro\'s own keys '
+                    'the OS received [%s], the list spells [%s]' % (' '.join(got), ' '.join(want)))
     if len(inputs) == 2 and inputs[0][0] == 'p' and inputs[1] == ('r', inputs[0][1]):
         y = inputs[0][1]
         mm = re.search(r';; expect-os %d ([^\n]*)' % y, cfg)
@@ -2303,6 +2658,8 @@ PROPS['C08']['stats'] = _c08_stats2
 PROPS['C08']['determined'] = lambda case, out: _kan_evseq(case, out) if case.startswith('KOS ') else _lay_keyseq(case, out)
 PROPS['C08']['determined_what'] = 'the order in which the key list sent to the OS changes, tick numbers aside (LAY / KAN lines); the order of the events sent to the OS - keys, mouse buttons, wheel, unicode - virtual times aside (KOS lines)'
 PROPS['C08']['rule'] += ('. OS-level slice (KOS lines: whole Kanata with the simulated output sink, compared with the kanata-level model on every OS event): 1-3 macros in all eight list actions whose bodies mix keys, output chords, held groups and delays with custom items - mouse buttons held and tapped, unmod / unshift keys, unicode, vertical and horizontal wheel, virtual-key taps on press and on release; every atom alone, every pair, under a held modifier, triples of custom items before a key (exhaustive); one activation; repeating forms held over several runs; release-cancel and cancel-on-press at every tick offset; two macros overlapping at every offset and random histories over 2-3 macros; a key with a custom action of its own pressed / released / tapped at every tick offset of the macro so that two custom events fall into one tick. Model-free oracle on the real trace: nothing (key or button) down at the OS after a balanced history and the quiet tail; one uninterrupted activation of a plain or cancel-on-press macro sends exactly the spelled list (carried in the configuration text as ;; expect-os)')
+# t5: (d2) / (d3) families of harness/src/c08.rs gen_os and clause (4) of _c08_os_oracle
+PROPS['C08']['rule'] += ('. Added after round t5: two cancel-on-press macros started together by one key (multi), long and short in both orders, another key pressed while the longer one is in progress (clause (3): it must be cancelled; only for a key pressed at least one tick after the macro key); a defseq sequence (plain, chorded with the left / right modifier key, all three input modes) typed during the delay of a macro that holds a modifier group, or completed by the macro\'s own keys (visible mode): the OS events projected onto the macro\'s own keys are the spelled list (;; expect-os-proj)')
 PROPS['C08']['trusted_base'] = PROPS['C08']['trusted_base'] + ['Model/Kanata.lean as a transcription of src/kanata/mod.rs (KOS lines: checked differentially on OS events with virtual-time stamps, the idle flag and the layout digest)', 'the spelled OS event list of a macro body is written by the harness generator together with the configuration text (harness/src/c08.rs os_expect)']
 
 
@@ -2337,6 +2694,71 @@ def _c18_free_oracle(case, impl):
 
 
 PROPS['C18']['free_oracle'] = _c18_free_oracle
+
+
+# ---- C17 intent oracle (t1): dance lists the parser rebuilds, judged against the written intent
+def _c17_intent_oracle(case, impl):
+    """tap-dance lists mixing plain keys with actions the parser rebuilds after parsing (switch /
+    chord, alone or inside fork / multi): the layout model runs on what the REAL parser built, so the
+    correspondence cannot see a wrongly built list.  The generator writes the intent into the
+    configuration text (`;; dance-expect <eager> <T> <key code of position 1> ...`); for histories
+    made of complete taps of the dance key well inside T, optionally one tap of the plain key, and
+    a long tail, the keys that go down must be, in order: lazy - for every full run of len taps the
+    last listed output (list exhausted), then the output of position r for the r taps left over,
+    then the plain key; eager - position 1, 2, ... one per tap (starting over after the list is
+    exhausted), then the plain key.  Each must be released again by the end."""
+    m = re.search(r';; dance-expect ([01]) (\d+) ([\d ]+)', _cfg_text(case))
+    if not m:
+        return None
+    eager, T, outs = m.group(1) == '1', int(m.group(2)), m.group(3).split()
+    if impl.startswith(('rej', 'crash', 'unsupported')):
+        return 'fail dance-intent: ' + impl[:80]
+    toks = case.split(' HIST ', 1)[1].split(' ')[1:]
+    evs, i = [], 0
+    while i < len(toks):
+        if toks[i] in ('p', 'r'):
+            evs.append((toks[i], toks[i + 2]))
+            i += 3
+        elif toks[i] == 't':
+            evs.append(('t', int(toks[i + 1])))
+            i += 2
+        else:
+            return None
+    # shape: (p a, t g, r a, t g)* [p b, t g, r b, t g] t tail
+    j, n, gaps_ok = 0, 0, True
+    while j + 3 < len(evs) and evs[j] == ('p', '30') and evs[j + 1][0] == 't' and evs[j + 2] == ('r', '30') and evs[j + 3][0] == 't':
+        gaps_ok = gaps_ok and 1 <= evs[j + 1][1] and evs[j + 1][1] + evs[j + 3][1] + 2 < T
+        n += 1
+        j += 4
+    with_b = False
+    if j + 3 < len(evs) and evs[j] == ('p', '48') and evs[j + 1][0] == 't' and evs[j + 2] == ('r', '48') and evs[j + 3][0] == 't':
+        with_b = True
+        j += 4
+    if n == 0 or not gaps_ok or j != len(evs) - 1 or evs[j][0] != 't' or evs[j][1] < T + 60:
+        return None
+    L = len(outs)
+    if eager:
+        exp = [outs[k % L] for k in range(n)]
+    else:
+        exp = [outs[L - 1]] * (n // L) + ([outs[n % L - 1]] if n % L else [])
+    if with_b:
+        exp.append('48')
+    downs, prev = [], set()
+    for ks in _lay_keyseq(case, impl).split(' '):
+        cur = set() if ks in ('K-', '-') else set(ks[1:].split(','))
+        downs += sorted(cur - prev, key=int)
+        prev = cur
+    if downs != exp:
+        return 'fail dance-intent: the listed outputs are %s (%s, T=%d); %d tap(s)%s must press %s in this order, the implementation pressed %s' % (
+            outs, 'eager' if eager else 'lazy', T, n, ' then the plain key' if with_b else '', exp, downs)
+    if prev:
+        return 'fail dance-intent: still down at the end: %s' % sorted(prev)
+    return 'ok'
+
+
+PROPS['C17']['free_oracle'] = _c17_intent_oracle
+PROPS['C17']['rule'] += ('; family `intent` (739 cases in the quick tier): lists of 2-3 positions, every position a plain marker key or a marker wrapped in switch / fork+switch / multi+switch / old-style chord (at least one of each kind per list), lazy and eager, 1..len+1 complete taps 2 or 4 ticks apart, optionally one tap of the plain key, long tail; judged by the model-free intent oracle against `;; dance-expect` in the configuration text')
+PROPS['C18']['rule'] += ('; family `hold-release` (hold-for-duration 20-60 mixed with release-vkey / release-key / direct release of the same key, second activation inside / at the end of / after the first countdown, 2-5 operations >= 8 ticks apart); family `macro-collision` (1536 cases in the quick tier: four macros operating v1 - press D release, tap, toggle D toggle, toggle - x four keys with custom actions of their own - tap v0 on press, tap v0 on release, mouse button, toggle v0 - x press offset 0..D+5 x hold 1/2/7 x macro key released early or late)')
 
 
 def _c19_os_stream(case, out):
@@ -2375,4 +2797,40 @@ def _c12_free_oracle(case, impl):
     return _C12_EXPECT.get(case.strip())
 
 
-PROPS['C12']['free_oracle'] = _c12_free_oracle
+def _c12_repeat_oracle(case, impl):
+    """family P (OS key repeat inside sequence mode; outside the Lean model).  Clause of the statement:
+    "While a sequence is in progress the hidden modes press none of the typed keys at the OS".  The mode
+    in force is the one the LEADER set: the defcfg mode after `sldr` (key 59), the leader's own mode
+    after `(sequence <t> <mode>)` (key 60).  A repeat event that is forwarded shows as a key-down in
+    the simulated output.  Speaks when that mode is hidden and the history completed a sequence
+    (exactly one virtual key tapped): then nothing but the virtual key's output may have been pressed."""
+    if ' :: TRACE ' not in impl:
+        return None
+    body = impl.split(' :: TRACE ', 1)[1]
+    parts = body.split(' | ')
+    if not body.startswith('ok ') or len(parts) != 3:
+        return None
+    f = case.split()
+    mode, lmode = int(f[2]), int(f[6])
+    h = f.index('H')
+    leader = next((int(f[j + 1]) for j in range(h + 2, len(f) - 1) if f[j] == 'p'), None)
+    eff = mode if leader == 59 else lmode if leader == 60 else None
+    if eff not in (0, 1):
+        return None
+    summ = _c12_summary(parts[1], parts[2])
+    m = re.match(r'taps=(\S+) down=(\S+) bs=(\d+) act=(\S+)', summ)
+    if not m or m.group(1) == '-' or ',' in m.group(1) or m.group(4) != 'I':
+        return None
+    downs = [] if m.group(2) == '-' else [int(x) for x in m.group(2).split(',')]
+    typed = [k for k in downs if not 2 <= k <= 11]
+    if typed:
+        return ('fail hidden mode (%s, set by the leader) pressed typed keys at the OS while the sequence was in progress: %s'
+                % (['hidden-suppressed', 'hidden-delay-type'][eff], ','.join(map(str, typed))))
+    return 'unsupported'
+
+
+PROPS['C12']['free_oracle'] = lambda case, impl: (_c12_repeat_oracle(case, impl) if case.startswith('C12 P ')
+                                                  else _c12_free_oracle(case, impl))
+PROPS['C12']['norm_impl'] = lambda out: out.split(' :: TRACE ', 1)[0]
+PROPS['C12']['rule'] += ('; P: OS key-repeat events for a key held inside sequence mode: defcfg input mode x leader (sldr / (sequence t mode) with each mode) '
+                         'x held position x 1-3 repeats, sequence completed inside the timeout (model-free oracle on the real trace)')
